@@ -9,6 +9,7 @@
 import XMT.CfgTotal
 import XMT.CfgJsonTotal
 import XMT.CfgEquiv
+import XMT.TieXlateCfg
 namespace XMT.Props.C09
 open XMT XMT.Cfg
 
@@ -85,5 +86,53 @@ example : validate [0xC0, 0xA0, 0, 1, 0x41] = .ok () := rfl
 example : build (fun _ _ _ => false) [0xB4, 0, 0, 1, 0x41] = .error (.err "tls-ca" .ext) ∧
     validate [0xB4, 0, 0, 1, 0x41] = .ok () := ⟨rfl, rfl⟩
 example : next [0xA0, 1, 0xF4] 0 = .ok none ∧ next [0xA0, 0, 1, 7, 0xC0] 0 = .ok (some 4) := ⟨rfl, rfl⟩
+
+/-! ### `next` of the CURRENT source (session 3, translator part 2)
+
+`Facts.x_cfg_Config_next` is regenerated from c2/cfg/convert.go on every run (whole body of `next`,
+`none` = index out of range, the value is Go's result with `-1`); `XMT.TieXlateCfg.x_next_eq_partial`
+proves it equal to the hand model for the tags of `provedTags` (fixed strides, valXOR/valHost). -/
+section Src
+open XMT.TieXlateCfg
+
+-- OPEN: src_next_total / src_next_progress without the hypothesis `hT` (needs x_next_eq for the arms
+-- valAES, valMuTLS, valTLSxCA, valTLSCert, valWC2, valDNS and the no-label case; these arms are compared
+-- with the real function by the differential group `xnext`).
+
+/-- `next_total` for the regenerated function: at every offset inside the config it returns a value,
+never an index panic (tags of `provedTags`). -/
+theorem src_next_total_partial (c : Bytes) (i : Nat) (hlen : c.length < 2^62) (hi : i < c.length)
+    (hT : ∀ b, c[i]? = some b → b.toNat ∈ provedTags) :
+    ∃ r, Facts.x_cfg_Config_next c (i : Int) = some r := by
+  obtain ⟨r, h⟩ := next_total c i hi
+  rw [x_next_eq_partial c i hlen hT, h]
+  cases r <;> exact ⟨_, rfl⟩
+
+/-- `next_progress` for the regenerated function: a result other than `-1` is strictly larger than the
+offset (tags of `provedTags`). -/
+theorem src_next_progress_partial (c : Bytes) (i : Nat) (r : Int) (hlen : c.length < 2^62) (hi : i < c.length)
+    (hT : ∀ b, c[i]? = some b → b.toNat ∈ provedTags)
+    (h : Facts.x_cfg_Config_next c (i : Int) = some r) (hr : r ≠ -1) : (i : Int) < r := by
+  rw [x_next_eq_partial c i hlen hT] at h
+  obtain ⟨m, hm⟩ := next_total c i hi
+  rw [hm] at h
+  cases m with
+  | none => simp only [conv, Option.some.injEq] at h; omega
+  | some n =>
+    have := next_progress c i n hi hm
+    simp only [conv, Option.some.injEq] at h
+    omega
+
+/-- A negative offset: `-1` (all byte strings, all tags). -/
+theorem src_next_negative (c : Bytes) (i : Int) (h : i < 0) : Facts.x_cfg_Config_next c i = some (-1) :=
+  next_neg c i h
+
+-- non-vacuity: the hypotheses hold of real settings and the regenerated function computes
+-- (host "\x07" of length 1 then a separator; a truncated host; the tag read at i = len(c) panics)
+example : (∀ b, ([0xA0, 0, 1, 7, 0xC0] : Bytes)[0]? = some b → b.toNat ∈ provedTags) ∧
+    Facts.x_cfg_Config_next [0xA0, 0, 1, 7, 0xC0] 0 = some 4 ∧
+    Facts.x_cfg_Config_next [0xA0, 1, 0xF4] 0 = some (-1) ∧ Facts.x_cfg_Config_next [0xA0, 1, 0xF4] 3 = none ∧
+    Facts.x_cfg_Config_next [0xE1, 2, 1, 65, 2, 66, 67, 0xC0] 0 = some 7 := by decide
+end Src
 
 end XMT.Props.C09
